@@ -193,7 +193,8 @@ Proof. exact small_chunk_witness. Qed.
 Print Assumptions T_C10mp_small_chunk_witness.
 
 (* every SetPosition argument: false beyond the end of the data (the string reader throws
-   std::invalid_argument, the stream reader's void SetPosition returns); both outside statements are
+   std::invalid_argument, the stream reader SerializationException(InputOutputError) since fix 24799d8 —
+   it returned normally before: both throw, different classes); both outside statements are
    T_C10mp_stream_equals_memory *)
 Theorem T_C10mp_stream_equals_memory_anysetpos_refuted :
   ~ (forall K data narrow widen fuel o ops,
@@ -203,7 +204,7 @@ Proof. exact seq_setpos_beyond_refuted. Qed.
 Print Assumptions T_C10mp_stream_equals_memory_anysetpos_refuted.
 
 Example T_C10mp_setpos_beyond_witness :
-  mps_run_bsr no_narrow id_widen 8 (stream_of [0xC0] true) 10 throw_all [RdSetPos 2] = Ok [AOkAt VUnit 0] /\
+  mps_run_bsr no_narrow id_widen 8 (stream_of [0xC0] true) 10 throw_all [RdSetPos 2] = Ok [AIOErr] /\
   str_run no_narrow id_widen [0xC0] throw_all [RdSetPos 2] = [AErrOf EInvalidArg].
 Proof. exact setpos_beyond_witness. Qed.
 Print Assumptions T_C10mp_setpos_beyond_witness.
@@ -289,6 +290,122 @@ Example T_C10mp_example_find_by_key :
   snd (str_client_run no_narrow id_widen find_doc throw_all (find_by_key 27 [0x71])) = Some None.
 Proof. exact find_by_key_run. Qed.
 Print Assumptions T_C10mp_example_find_by_key.
+
+(* ---------------------------------------------------------------- streams without seek support *)
+
+(* stream_of data false = a stream whose streambuf cannot seek (a pipe, a socket, a decompressor).
+   CBinaryStreamReader::SetPosition then works only inside the cached window, at the stream position, or
+   (refused, correctly) beyond the data: finding F16b, T_C10_bsr_refines_anystream_outside.  The MsgPack
+   stream reader calls it in SkipValueImpl (forward; a refusal is ParsingException), in ReadExtFamilyType
+   (back to the start of the ext header), in ReadValue(CBinTimestamp) (forward over the header) and in its
+   own SetPosition; since fix 24799d8 a refusal at the last three is SerializationException(InputOutputError)
+   (outcome QIO / answer AIOErr) — before, it was dropped and the reader went on from the wrong place.
+
+   NO SILENT DIFFERENCE.  same_or_throws l str: l = str, or str = pre ++ rest and l = pre ++ [e] with e a
+   ParsingError or an InputOutputError.  For every chunk size K >= 8, every data, every list of reads: on
+   a non-seekable stream the stream reader gives the string reader's answers (values, not-loaded,
+   positions, error classes), or gives them up to some call and ends there in one of these two exceptions.
+   Never a different value. *)
+Theorem T_C10mp_nonseekable_no_silent_difference : forall K data narrow widen fuel o ops,
+  (8 <= K)%nat -> fits_streamoff data -> bytes_ok data -> (length data < fuel)%nat ->
+  forallb (rop_ok data) ops = true ->
+  exists l, mps_run_bsr narrow widen K (stream_of data false) fuel o ops = Ok l /\
+            same_or_throws l (str_run narrow widen data o ops).
+Proof. exact seq_nonseekable_no_silent. Qed.
+Print Assumptions T_C10mp_nonseekable_no_silent_difference.
+
+(* the same for every adaptive client: its transcript is the string-side transcript (and its result the
+   same), or a prefix of it followed by the call that threw, and no result *)
+Theorem T_C10mp_nonseekable_no_silent_difference_adaptive : forall K data narrow widen fuel o (A : Type) (c : client A),
+  (8 <= K)%nat -> fits_streamoff data -> bytes_ok data -> (length data < fuel)%nat ->
+  client_seeks_ok narrow widen data o c data = true ->
+  exists res, mps_client_bsr narrow widen K (stream_of data false) fuel o c = Ok res /\
+              client_same_or_throws res (str_client_run narrow widen data o c).
+Proof. exact client_nonseekable_no_silent. Qed.
+Print Assumptions T_C10mp_nonseekable_no_silent_difference_adaptive.
+
+(* EQUAL ANSWERS: "stream = memory on a non-seekable stream" is false ... *)
+Theorem T_C10mp_nonseekable_refuted :
+  ~ (forall K data narrow widen fuel o ops,
+       (8 <= K)%nat -> fits_streamoff data -> bytes_ok data -> (length data < fuel)%nat ->
+       forallb (rop_ok data) ops = true ->
+       mps_run_bsr narrow widen K (stream_of data false) fuel o ops = Ok (str_run narrow widen data o ops)).
+Proof. exact seq_nonseekable_refuted. Qed.
+Print Assumptions T_C10mp_nonseekable_refuted.
+
+(* ... by an EXCEPTION ON A WELL-FORMED DOCUMENT: SkipValue of a value ending beyond the cached window
+   (ParsingError "Unexpected end of input archive"); reading the same value is fine *)
+Example T_C10mp_nonseekable_witness_skip :
+  mps_run_bsr no_narrow id_widen 8 (stream_of ns_skip_doc false) 20 throw_all [RdSkip; RdInt u8t] = Ok [AErrOf EParse] /\
+  str_run no_narrow id_widen ns_skip_doc throw_all [RdSkip; RdInt u8t] = [AOkAt VUnit 11; AOkAt (VInt 42) 12] /\
+  mps_run_bsr no_narrow id_widen 8 (stream_of ns_skip_doc false) 20 throw_all [RdStr; RdInt u8t] =
+    Ok (str_run no_narrow id_widen ns_skip_doc throw_all [RdStr; RdInt u8t]).
+Proof. exact ns_skip_witness. Qed.
+Print Assumptions T_C10mp_nonseekable_witness_skip.
+
+(* ... and true whenever no SetPosition of the run leaves the cached window.
+   nonseek_ok .. K data fuel o ops = along the run of the reads on the chunked reader over the non-seekable
+   stream, every SetPosition issued is local (StreamBsrProofs.op_local) — a boolean computed from
+   (K, data, policies, ops) by running the model; nonseek_client_ok the same for an adaptive client. *)
+Theorem T_C10mp_nonseekable_outside : forall K data narrow widen fuel o ops,
+  (8 <= K)%nat -> fits_streamoff data -> bytes_ok data -> (length data < fuel)%nat ->
+  forallb (rop_ok data) ops = true ->
+  nonseek_ok narrow widen K data fuel o ops = true ->
+  mps_run_bsr narrow widen K (stream_of data false) fuel o ops = Ok (str_run narrow widen data o ops).
+Proof. exact seq_nonseekable_outside. Qed.
+Print Assumptions T_C10mp_nonseekable_outside.
+
+Theorem T_C10mp_nonseekable_adaptive_outside : forall K data narrow widen fuel o (A : Type) (c : client A),
+  (8 <= K)%nat -> fits_streamoff data -> bytes_ok data -> (length data < fuel)%nat ->
+  client_seeks_ok narrow widen data o c data = true ->
+  nonseek_client_ok narrow widen K data fuel o c = true ->
+  mps_client_bsr narrow widen K (stream_of data false) fuel o c = Ok (str_client_run narrow widen data o c).
+Proof. exact client_nonseekable_outside. Qed.
+Print Assumptions T_C10mp_nonseekable_adaptive_outside.
+
+(* the three formerly silent cases (K = 8; with chunk_size 256 put 248 more bytes in front), as the model of
+   the repaired code answers them:
+   (1) a timestamp whose ext header straddles a chunk boundary (0xD6 last byte of a chunk, 0xFF first of the
+       next): InputOutputError (before 24799d8: seconds 0x00050102 instead of 5, no exception) *)
+Example T_C10mp_nonseekable_witness_timestamp :
+  mps_run_bsr no_narrow id_widen 8 (stream_of ns_ts_doc false) 20 throw_all (nils 7 ++ [RdTs]) =
+    Ok (map (fun i => AOkAt VUnit (N.of_nat i)) (seq 1 7) ++ [AIOErr]) /\
+  str_run no_narrow id_widen ns_ts_doc throw_all (nils 7 ++ [RdTs]) =
+    map (fun i => AOkAt VUnit (N.of_nat i)) (seq 1 7) ++ [AOkAt (VTs 5 0) 13] /\
+  nonseek_ok no_narrow id_widen 8 ns_ts_doc 20 throw_all (nils 7 ++ [RdTs]) = false /\
+  mps_run_bsr no_narrow id_widen 8 (stream_of ns_ts_doc true) 20 throw_all (nils 7 ++ [RdTs]) =
+    Ok (str_run no_narrow id_widen ns_ts_doc throw_all (nils 7 ++ [RdTs])).
+Proof. exact ns_ts_witness. Qed.
+Print Assumptions T_C10mp_nonseekable_witness_timestamp.
+
+(* (2) ReadValueType on that header: InputOutputError (before: the right type, reader left inside the value) *)
+Example T_C10mp_nonseekable_witness_value_type :
+  mps_run_bsr no_narrow id_widen 8 (stream_of ns_ts_doc false) 20 skip_all (nils 7 ++ [RdType; RdInt u8t]) =
+    Ok (map (fun i => AOkAt VUnit (N.of_nat i)) (seq 1 7) ++ [AIOErr]) /\
+  str_run no_narrow id_widen ns_ts_doc skip_all (nils 7 ++ [RdType; RdInt u8t]) =
+    map (fun i => AOkAt VUnit (N.of_nat i)) (seq 1 7) ++ [AOkAt (VType TTimestamp) 7; ANotAt 13].
+Proof. exact ns_type_witness. Qed.
+Print Assumptions T_C10mp_nonseekable_witness_value_type.
+
+(* (3) the reader's own SetPosition (the scopes' seek back to mStartPos) across a chunk boundary:
+       InputOutputError (before: ignored, reading went on where it was) *)
+Example T_C10mp_nonseekable_witness_rewind :
+  mps_run_bsr no_narrow id_widen 8 (stream_of ns_rewind_doc false) 20 throw_all
+    (repeat (RdInt u8t) 9 ++ [RdSetPos 0; RdInt u8t]) =
+    Ok (map (fun i => AOkAt (VInt (Z.of_nat i)) (N.of_nat i)) (seq 1 9) ++ [AIOErr]) /\
+  str_run no_narrow id_widen ns_rewind_doc throw_all (repeat (RdInt u8t) 9 ++ [RdSetPos 0; RdInt u8t]) =
+    map (fun i => AOkAt (VInt (Z.of_nat i)) (N.of_nat i)) (seq 1 9) ++ [AOkAt VUnit 0; AOkAt (VInt 1) 1].
+Proof. exact ns_rewind_witness. Qed.
+Print Assumptions T_C10mp_nonseekable_witness_rewind.
+
+(* in the class: a document inside one chunk with type probe, skip and rewind; documents read front to back *)
+Example T_C10mp_nonseekable_examples_in_class :
+  nonseek_ok no_narrow id_widen 8 [0x92; 0xD6; 0xFF; 0; 0; 0; 5] 20 throw_all [RdType; RdSkip; RdSetPos 0; RdArr; RdTs] = true /\
+  nonseek_ok no_narrow id_widen 8 ns_skip_doc 20 throw_all [RdStr; RdInt u8t; RdIsEnd] = true /\
+  nonseek_ok no_narrow id_widen 8 straddle_doc 100 skip_all
+    [RdStr; RdStr; RdInt (mkIty false 16); RdArr; RdInt u8t; RdNil; RdF32] = true.
+Proof. exact ns_ok_examples. Qed.
+Print Assumptions T_C10mp_nonseekable_examples_in_class.
 
 (* ---------------------------------------------------------------- where the readers stand after a failing SkipValue *)
 
